@@ -4,7 +4,7 @@ Rec == ndJsonDeserialize(IOEnv.TRACE)
 VARIABLE l
 TraceInit == MInit /\ l = 1
 Reset == /\ Rec[l].act.op = "reset"
-         /\ pop' = <<>> /\ best' = NoInd /\ arch' = <<>> /\ shownK' = <<>> /\ evals' = 0 /\ calls' = 0
+         /\ pop' = <<>> /\ best' = NoInd /\ arch' = <<>> /\ shownK' = <<>> /\ evals' = 0 /\ calls' = 0 /\ reg' = <<1, 0>>
          /\ act' = Rec[l].act /\ res' = R("ok", 0)
 Step == /\ Rec[l].act.op # "reset"
         /\ CASE Rec[l].act.op = "archive_update" -> ArchiveUpdate(Rec[l].arch)
